@@ -130,6 +130,18 @@ def allGraph (x : TG) (t : Nat) (rank : Nat) (axis : AxisArg) (keepdims : Bool) 
 def anyGraph (x : TG) (t : Nat) (rank : Nat) (axis : AxisArg) (keepdims : Bool) : TG :=
   .cast 9 (viaI64 3 (reduceCore .max keepdims axis rank) (.cast 3 (truthy x t)))
 
+/-! ## reductions of nullable integer arrays: nulls are replaced by the neutral element, the result is not nullable -/
+
+/-- `sum(x)` for nullable `x` with fields `values`, `null`: `astype` to the accumulator, `where(null, 0, values)`, reduce. -/
+def sumNullableGraph (values null : TG) (t : Nat) (rank : Nat) (axis : AxisArg) (keepdims : Bool) : Option TG :=
+  (accCode t 13).map (fun acc =>
+    viaI64 acc (reduceCore .sum keepdims axis rank) (.sel null (iscalar 0) (astypeG t acc values)))
+
+/-- `prod(x)` for nullable `x`: `where(null, 1, values)`. -/
+def prodNullableGraph (values null : TG) (t : Nat) (rank : Nat) (axis : AxisArg) (keepdims : Bool) : Option TG :=
+  (accCode t 12).bind (fun acc => if acc = 13 then none else
+    some (viaI64 acc (reduceCore .prod keepdims axis rank) (.sel null (iscalar 1) (astypeG t acc values))))
+
 namespace Spec
 
 /-- NumPy `flip` over a set of axes. -/
